@@ -32,9 +32,11 @@ def build_executor(reg, con, concrete=False):
     return ex
 
 
-def _solve(vc, timeout_ms):
+def _solve(vc, timeout_ms, seed=None):
     s = z3.Solver()
     s.set('timeout', timeout_ms)
+    if seed is not None:
+        s.set('random_seed', seed)
     s.add(*vc.facts)
     s.add(z3.Not(vc.goal))
     t0 = time.time()
@@ -236,6 +238,9 @@ def run_contract(reg, con, tier='quick', prefix='', modname=''):
     for vc in vcs:
         if vc.status == 'pending':
             _solve(vc, timeout)
+            if vc.status == 'unknown' and vc.model is None:
+                # one retry with a larger budget and another seed: verdicts must not flip under machine load
+                _solve(vc, timeout * 4, seed=7)
         groups.setdefault(vc.name, []).append(vc)
     # every ensures clause must have produced at least one VC (a function with no normal path proves nothing)
     for cname in con.ensures:
